@@ -158,6 +158,8 @@ type StageObs struct {
 	Path string
 	Rec  *StageRec
 	Raw  []byte
+	Ino  uint64 // identity of the file on disk: a rewrite with the same bytes still shows
+	Mtim int64
 }
 
 func (w *World) coq() string {
@@ -278,10 +280,21 @@ func cachePathOf(cacheDir, digest string) string {
 }
 
 // materialize writes a model node at path.
+// fileModes: regular files get varied permission bits (families about the cache's own modes).
+var fileModes bool
+
 func materialize(path string, n *Node, cacheDir string) {
 	switch n.Kind {
 	case "f":
 		must(os.WriteFile(path, n.Data, 0o644))
+		if fileModes {
+			// the user's permission bits vary (chosen by content, so that runs are reproducible)
+			k := len(n.Data)
+			if k > 0 {
+				k += int(n.Data[0])
+			}
+			must(os.Chmod(path, []os.FileMode{0o644, 0o600, 0o444, 0o440, 0o400, 0o555, 0o755, 0o664}[k%8]))
+		}
 	case "lc":
 		target := cachePathOf(cacheDir, string(n.Data))
 		rel, err := filepath.Rel(filepath.Dir(path), target)
@@ -410,7 +423,14 @@ func (p *Project) observe() *World {
 	for _, s := range sfs {
 		abs := filepath.Join(p.Root, s)
 		raw, _ := os.ReadFile(abs)
-		w.Stages = append(w.Stages, StageObs{s, loadStage(abs), raw})
+		so := StageObs{Path: s, Rec: loadStage(abs), Raw: raw}
+		if fi, err := os.Lstat(abs); err == nil {
+			if st, ok := fi.Sys().(*syscall.Stat_t); ok {
+				so.Ino = st.Ino
+			}
+			so.Mtim = fi.ModTime().UnixNano()
+		}
+		w.Stages = append(w.Stages, so)
 	}
 	if b, err := os.ReadFile(filepath.Join(p.Root, ".dud", "index")); err == nil {
 		for _, l := range strings.Split(string(b), "\n") {
@@ -684,6 +704,14 @@ func (p *Project) do(c Cmd, sems []CmdSem, specs []int, ref *Node, pre *World) (
 	var obs []int
 	if p.Hung {
 		obs = append(obs, 3)
+	}
+	// 100+i: the i-th stage file (order of the pre-state) was physically touched
+	for i, a := range pre.Stages {
+		for _, b := range post.Stages {
+			if a.Path == b.Path && (string(a.Raw) != string(b.Raw) || a.Ino != b.Ino || a.Mtim != b.Mtim) {
+				obs = append(obs, 100+i)
+			}
+		}
 	}
 	t := &Transition{Sems: sems, Pre: pre, Cmd: c, OK: res.Exit == 0, Post: post, Ref: ref, Specs: specs, Res: res, Obs: obs,
 		Info: map[string]interface{}{"cmd": strings.Join(append([]string{"dud"}, c.argv()...), " "), "cwd": c.Cwd, "exit": res.Exit}}
